@@ -256,22 +256,7 @@ impl PoolImpl {
                     self.handle_finalization(finalization_event).await;
                 }
 
-                // potentially notify children waiting for safe-to-notar
-                let children = self
-                    .s2n_waiting_parent_cert
-                    .remove(&block_id)
-                    .unwrap_or_default();
-                for (child_slot, child_hash) in children {
-                    if let Some(output) = self
-                        .slot_state(child_slot)
-                        .notify_parent_certified(child_hash)
-                    {
-                        match output {
-                            Either::Left(event) => self.send_votor_event(event).await,
-                            Either::Right((slot, hash)) => self.send_repair((slot, hash)).await,
-                        }
-                    }
-                }
+                self.notify_children_parent_certified(&block_id).await;
 
                 // add block to parent-ready tracker, send any new parents to Votor.
                 let new_parents_ready = self.parent_ready_tracker.mark_notar_fallback(&block_id);
@@ -288,6 +273,9 @@ impl PoolImpl {
             Cert::FastFinal(ff_cert) => {
                 info!("fast finalized slot {slot}");
                 let hash = ff_cert.block_hash().clone();
+                // a fast-finalization certificate certifies the block as well
+                self.notify_children_parent_certified(&(slot, hash.clone()))
+                    .await;
                 let finalization_event = self.finality_tracker.mark_fast_finalized((slot, hash));
                 self.handle_finalization(finalization_event).await;
             }
@@ -301,6 +289,25 @@ impl PoolImpl {
         // send to votor for broadcasting
         let event = PoolEvent::CertCreated(cert);
         self.send_votor_event(event).await;
+    }
+
+    /// Notifies all blocks waiting for `parent` to be certified (for safe-to-notar).
+    async fn notify_children_parent_certified(&mut self, parent: &BlockId) {
+        let children = self
+            .s2n_waiting_parent_cert
+            .remove(parent)
+            .unwrap_or_default();
+        for (child_slot, child_hash) in children {
+            if let Some(output) = self
+                .slot_state(child_slot)
+                .notify_parent_certified(child_hash)
+            {
+                match output {
+                    Either::Left(event) => self.send_votor_event(event).await,
+                    Either::Right((slot, hash)) => self.send_repair((slot, hash)).await,
+                }
+            }
+        }
     }
 
     /// Mutably accesses the [`SlotState`] for the given `slot`.
